@@ -683,6 +683,35 @@ def _shard(shard, nshards, tier, seed):
             elif i % 37 == 0:
                 stats.state(pair.canon())
         stats.nontriv(('B', ci))
+    # ---- part C: tool level - trace.py with and without --python (same programs as C10)
+    from . import c10
+    from .. import tools
+    import os
+    ccases = []
+    for machine in ('48K', '128K'):
+        for cmio in (0, 1):
+            for t0 in ('near', 'late', 'zero'):
+                for li in range(len(c10.letters())):
+                    ccases.append((machine, cmio, t0, li))
+    for i, (machine, cmio, t0, li) in core.shard_iter(ccases, shard, nshards):
+        d = tools.workdir()
+        frame = 69888 if machine == '48K' else 70908
+        snaps = []
+        for py in (0, 1):
+            cfg = dict(fmt='szx', machine=machine, cmio=cmio, python=py, t0=t0)
+            init, _ = c10.write_init(cfg, (li,), d)
+            out = os.path.join(d, 'tool%d.szx' % py)
+            r = tools.run_tool('trace', c10.trace_args(cfg, init, c10.n_for((li,), cfg), out))
+            stats.transitions += 1
+            snaps.append(None if r.rc else c10.snap_state(out, frame))
+        stats.evaluations += 1
+        stats.counters['C_tool_runs'] += 1
+        if snaps[0] is None or snaps[0] != snaps[1]:
+            keys = [] if None in snaps else [k for k in snaps[0] if snaps[0][k] != snaps[1][k]]
+            stats.violation('C/trace/{}/cmio{}/{}/{}'.format(machine, cmio, t0, c10.letters()[li][0]),
+                            {'part': 'C', 'machine': machine, 'cmio': cmio, 't0': t0, 'letter': li},
+                            'trace.py result differs with/without --python in {}'.format(keys or 'a failed run'),
+                            tags={'part': 'C', 'machine': machine}, order=2 * 10**6 + i)
     if shard == 0:
         stats.sample({'part': 'A', 'init': 1, 'history': ['EI', 'DD'], 'final': 'FB (each of 3584 slot fillings)'})
         stats.sample({'part': 'B', 'program': 'LD SP,7F00; IM 2; LD A,7E; LD I,A; EI; <EI;HALT>; JP 7000', 't0': 69788, 'interrupts': True})
@@ -714,7 +743,7 @@ def run(tier, seed):
                      'C pages internally, Python delegates paging to the tracer)',
                      'single-step run(start) ignores interrupts in Python by construction; interrupt timing is compared through run(start, stop, True) '
                      'and accept_interrupt()'],
-        required_guards=['B_runs', 'B_interrupt_taken', 'B_interrupts_im1', 'B_interrupts_im2', 'A_inner_states'],
+        required_guards=['C_tool_runs', 'B_runs', 'B_interrupt_taken', 'B_interrupts_im1', 'B_interrupts_im2', 'A_inner_states'],
     )
     return stats, meta
 
@@ -722,12 +751,27 @@ def run(tier, seed):
 def replay(case):
     stats = core.Stats()
     machine = case['machine']
-    pair = Pair(tuple(case['kinds']), machine, case.get('tracer', True))
+    pair = Pair(tuple(case['kinds']), machine, case.get('tracer', True)) if case['part'] != 'C' else None
     if case['part'] == 'A':
         S = letters_S(machine)
         regs = regs_list(INIT_REGS[case['init']], machine)
         extra = ((tuple(case['final']),),) if case.get('final') else ()
         d, _ = replay_history(pair, regs, S, tuple(case['hist']), extra, stats)
         return d
+    if case['part'] == 'C':
+        from . import c10
+        from .. import tools
+        import os
+        skbuild_dir = tools.workdir()
+        snaps = []
+        for py in (0, 1):
+            cfg = dict(fmt='szx', machine=machine, cmio=case['cmio'], python=py, t0=case['t0'])
+            init, _ = c10.write_init(cfg, (case['letter'],), skbuild_dir)
+            out = os.path.join(skbuild_dir, 'tool%d.szx' % py)
+            r = tools.run_tool('trace', c10.trace_args(cfg, init, c10.n_for((case['letter'],), cfg), out))
+            snaps.append(None if r.rc else c10.snap_state(out, 69888 if machine == '48K' else 70908))
+        if snaps[0] is None or snaps[0] != snaps[1]:
+            return ['trace.py result differs with/without --python']
+        return []
     letters = static_letters(machine)
     return run_static(pair, machine, letters, tuple(case['seq']), case['im2'], case['t0'], case['interrupts'], stats)
